@@ -95,6 +95,34 @@ def gen(rng, tier):
                ["b", {"in": [["input", f1(other)]], "out": [["output", f1(other)]]}]]
         edges = rng.choice([[["a", "b"]], [["b", "a"]], [["a", "a"], ["a", "b"]], [["a", "b"], ["b", "a"]]])
         cases.append({"kind": "rand", "nodes_t": tys, "edges": edges})
+    # a node whose name is another node's name plus ".<suffix>" (flat graph, the two differ in shape), and shapes held in arrays
+    # of narrow integer dtypes that are equal only modulo 2**bits
+    for _ in range(24 if tier == "quick" else 240):
+        a = rng.choice(["fc", "enc", "a", "block"])
+        b = a + rng.choice([".gate", ".0", ".output", ".b.c"])
+        sa, sb = [rng.choice([2, 3, 5])], [rng.choice([2, 3, 5, 7])]
+        ty = lambda sh: {"in": [["input", list(sh)]], "out": [["output", list(sh)]]}
+        mid = rng.choice([a, b])
+        shapes = {a: sa, b: sb, "in": sa if mid == a else sb, "out": sa if mid == a else sb}
+        if rng.random() < 0.5:
+            shapes["out"] = sb if mid == a else sa        # a mismatch that the partner's shape would hide
+        tys = [[n, ty(shapes[n])] for n in ["in", a, b, "out"]]
+        rng.shuffle(tys)
+        cases.append({"kind": "rand", "nodes_t": tys, "edges": [["in", mid], [mid, "out"]]})
+    for _ in range(24 if tier == "quick" else 240):
+        dt = rng.choice(["uint8", "int8", "int16", "uint16", "int32"])
+        bits = np.dtype(dt).itemsize * 8
+        small = [rng.randint(1, 9) for _ in range(rng.choice([1, 2, 3]))]
+        big = list(small)
+        i = rng.randrange(len(big)); big[i] += (1 << bits) * rng.choice([1, 1, 2])
+        if rng.random() < 0.3:
+            big = list(small)           # genuinely equal values in mixed dtypes: must be accepted
+        narrow = {"nd": small, "dt": dt}
+        if rng.random() < 0.5:
+            tys = [["a", {"in": [["input", big]], "out": [["output", big]]}], ["b", {"in": [["input", narrow]], "out": [["output", narrow]]}]]
+        else:
+            tys = [["a", {"in": [["input", narrow]], "out": [["output", narrow]]}], ["b", {"in": [["input", big]], "out": [["output", big]]}]]
+        cases.append({"kind": "rand", "nodes_t": tys, "edges": rng.choice([[["a", "b"]], [["a", "b"], ["b", "a"]]])})
     # very long sequential graphs (chain / ring of > 1000 nodes): any node count
     for j, kind in enumerate(["chain", "ring", "chain"] if tier == "quick" else ["chain", "ring", "chain", "ring", "chain", "ring"]):
         n = rng.choice([1100, 1300, 1700])
@@ -161,6 +189,8 @@ def defined_shape(t):
     v = t[0][1]
     if v is None:
         return None
+    if isinstance(v, dict) and "nd" in v:
+        return [int(x) for x in np.array(v["nd"], dtype=v["dt"])]
     return list(v["seq"]) if isinstance(v, dict) else list(v)
 
 
